@@ -44,6 +44,10 @@ func TrustedFSFromTrustedSource(ts TrustedSource) TrustedFS {
 // Sub returns a TrustedFS at a subdirectory of the receiver.
 // It works by calling fs.Sub on the receiver's fs.FS.
 func (tf TrustedFS) Sub(dir TrustedSource) (TrustedFS, error) {
+	if tf.fsys == nil {
+		// The zero TrustedFS.
+		return TrustedFS{}, fmt.Errorf("html/template: the TrustedFS has no file system")
+	}
 	subfs, err := fs.Sub(tf.fsys, dir.String())
 	return TrustedFS{fsys: subfs}, err
 }
@@ -73,6 +77,10 @@ func (t *Template) ParseFS(tfs TrustedFS, patterns ...string) (*Template, error)
 // Copied from
 // https://go.googlesource.com/go/+/refs/tags/go1.17.1/src/text/template/helper.go.
 func parseFS(t *Template, fsys fs.FS, patterns []string) (*Template, error) {
+	if fsys == nil {
+		// The zero TrustedFS.
+		return nil, fmt.Errorf("html/template: the TrustedFS has no file system")
+	}
 	var filenames []string
 	for _, pattern := range patterns {
 		list, err := fs.Glob(fsys, pattern)
